@@ -865,6 +865,13 @@ pub fn gen_ws(ch: &mut Chooser, cx: &mut CaseCtx, o: &WsGenOpts) -> WsCase {
     if fail_at.is_some() {
         feat.push("failing-series".into());
     }
+    let raw = |p: &String| p.chars().any(|c| (0xF780..=0xF7FF).contains(&(c as u32)));
+    if states.iter().any(|st| st.files.keys().any(raw)) {
+        feat.push("file-name-not-utf8".into());
+        if metas.iter().any(|m| m.ops.iter().any(|o| !o.failing_hunks.is_empty() && (raw(&o.target) || raw(&o.new_path)))) {
+            feat.push("failing-file-name-not-utf8".into());
+        }
+    }
     let mut s = series.join("\n");
     s.push('\n');
     let spec = WsSpec { tree: t0, patches, series: B(s.into_bytes()), applied: None, dirs: vec![], symlinks: vec![] };
